@@ -376,7 +376,9 @@ def run(tier: str, seed: int) -> BoundedReport:
         bag.seen((U.freeze(d), U.opt_key(o)))
         # equal specs print equally (same structure, flags and namespace)
         k = (U.sig(n), s.none_is_leaf, s.namespace)
-        r = repr(s)
+        st, r = U.guard(repr, s)
+        if st == 'exc':
+            return              # reported by check_spec
         prev = reprs.setdefault(k, (r, d, o))
         if prev[0] != r:
             bag.add('C08.repr', f'equal treespecs print differently: {prev[0]!r} ({U.show(prev[1])}) vs {r!r} ({U.show(d)})',
